@@ -9,6 +9,7 @@ import (
 	"fmt"
 	"os"
 	"path"
+	"strings"
 	"sync"
 	"testing"
 	"time"
@@ -36,11 +37,26 @@ import (
 type vfc33Kind struct {
 	name string
 	err  error
+	cut  int // > 0: the call succeeds, the returned reader breaks after 0 / half / all-but-one bytes (only reads that return a reader)
 }
 
 var vfc33Kinds = []vfc33Kind{
-	{"transient-error", vfcfbErrTransient},
-	{"context-deadline", context.DeadlineExceeded},
+	{"transient-error", vfcfbErrTransient, 0},
+	{"context-deadline", context.DeadlineExceeded, 0},
+}
+
+var vfc33BodyKinds = []vfc33Kind{
+	{"reader-breaks-after-0-bytes", nil, 1},
+	{"reader-breaks-after-half", nil, 2},
+	{"reader-breaks-one-byte-short", nil, 3},
+}
+
+func (k vfc33Kind) arm(core *vfcfbCore, read int) {
+	if k.cut > 0 {
+		core.armReadBodyFault(read, k.cut)
+	} else {
+		core.armReadFault(read, k.err)
+	}
 }
 
 func TestVF_C33(t *testing.T) {
@@ -49,7 +65,7 @@ func TestVF_C33(t *testing.T) {
 	r.Rule("case = one generated bucket state with pending work of every kind (3..4 aligned real TSDB blocks to compact / replica streams / vertical overlap / no-compact mark / empty block / second group; " +
 		"a block whose deletion mark is older than the delete delay; an old partial upload) x delete delay {0,48h} x lister {concurrent, recursive}; a fault-free compaction cycle " +
 		"(BucketCompactor.Compact + the sync/retention/partial-cleanup tail of compactMainFn) counts the R reads issued by the metadata sync (listing, meta.json exists/get, deletion-mark.json, no-compact-mark.json); " +
-		"then for every r <= R and error kind {transient error, context deadline exceeded} a fresh compactor runs the cycle on a fresh copy of the state with the r-th sync read failing once; " +
+		"then for every r <= R and error kind {transient error, context deadline exceeded} - and for every read that returns a reader also {call succeeds but the reader breaks after 0 bytes / half / one byte short} - a fresh compactor runs the cycle on a fresh copy of the state with the r-th sync read failing once; " +
 		"oracle: no mutating bucket operation (upload, delete) is applied after the failed read in that cycle; distinct = (state, r, kind); non-trivial = the fault was injected and the fault-free run " +
 		"performed destructive work after its r-th read")
 	nsets := r.N(3, 24)
@@ -74,7 +90,7 @@ func TestVF_C33(t *testing.T) {
 		run := func(failRead int, kind vfc33Kind) (*vfcfbCore, error) {
 			core := vfcrigRestore(ctx, snap)
 			vfcrigCopyLastMod(core0, core)
-			core.armReadFault(failRead, kind.err)
+			kind.arm(core, failRead)
 			cctx, cancel := context.WithTimeout(ctx, 5*time.Minute)
 			defer cancel()
 			dir, err := os.MkdirTemp(scratch, "run")
@@ -138,10 +154,18 @@ func TestVF_C33(t *testing.T) {
 				}
 				jobs = append(jobs, job{rd, kind})
 			}
+			if strings.HasPrefix(readClass[rd], "get/") {
+				// reads that hand out a reader (meta.json, deletion-mark.json, no-compact-mark.json): the stream breaks mid-way
+				for bi, kind := range vfc33BodyKinds {
+					if r.Thorough() || rd%3 == bi {
+						jobs = append(jobs, job{rd, kind})
+					}
+				}
+			}
 		}
 		jobCh := make(chan job)
 		var wg sync.WaitGroup
-		for w := 0; w < 4; w++ { // independent runs (own bucket copy, own compactor, own directory)
+		for w := 0; w < 8; w++ { // independent runs (own bucket copy, own compactor, own directory)
 			wg.Add(1)
 			go func() {
 				defer wg.Done()
@@ -204,10 +228,10 @@ func vfc33OpsFrom(ops []vfcfbOp, seq int) []vfcfbOp {
 func TestVF_C33L(t *testing.T) {
 	r := vfkit.Start(t, "C33")
 	defer r.Finish()
-	r.Rule("case = one metadata sync (real MetaFetcher, ConcurrentLister, concurrency 4) over 24 blocks in which the k-th 'meta.json exists' read fails once (k = 1..24, repeated); " +
+	r.Rule("case = one metadata sync (real MetaFetcher, ConcurrentLister, concurrency 4) over 24 blocks in which the k-th read of the sync (meta.json exists calls and meta.json gets, k = 1..48) fails once with {transient error, context deadline, reader breaks after 0 bytes / half / one byte short}; " +
 		"oracle: the sync reports an error (an incomplete view is never returned as complete) and the process survives; distinct = k x error kind")
-	n := r.N(96, 960)
-	r.Require(int64(n), 24)
+	n := r.N(240, 2400)
+	r.Require(int64(n), 48)
 	ctx := context.Background()
 	fmt.Println("VF-INFLIGHT C33 metadata sync (ConcurrentLister) with a failing meta.json exists read")
 	core := vfcfbNew()
@@ -227,9 +251,10 @@ func TestVF_C33L(t *testing.T) {
 		if !r.Want(i) {
 			continue
 		}
-		kind := vfc33Kinds[(i/24)%2]
+		allKinds := append(append([]vfc33Kind(nil), vfc33Kinds...), vfc33BodyKinds...)
+		kind := allKinds[(i/48)%len(allKinds)]
 		core.reset()
-		core.armReadFault(2+i%24, kind.err) // read 1 is the listing, reads 2..25 are the exists calls
+		kind.arm(core, 2+i%48) // read 1 is the listing, reads 2..49 are the exists calls and meta.json gets of the 24 blocks
 		ins := objstore.WithNoopInstr(core.view("sync", true))
 		f, err := block.NewMetaFetcher(log.NewNopLogger(), 4, ins, block.NewConcurrentLister(log.NewNopLogger(), ins), "", nil, nil)
 		if err != nil {
@@ -242,7 +267,7 @@ func TestVF_C33L(t *testing.T) {
 			r.Count("fault_not_reached", 1)
 			continue
 		}
-		r.Distinct(fmt.Sprintf("%d|%s", i%24, kind.name))
+		r.Distinct(fmt.Sprintf("%d|%s", i%48, kind.name))
 		r.Sample(map[string]any{"failed_read": failed, "error_kind": kind.name, "sync_error": fmt.Sprint(err)})
 		if err == nil {
 			r.Violation(i, "sync-reports-success-after-failed-read:"+failed.Kind+"/"+failed.Class,
